@@ -56,7 +56,7 @@ def worker_env(hashseed="0", extra=None):
         NUMBA_CACHE_DIR=cdir,
         NUMBA_ENABLE_CUDASIM="1",
         NUMBA_THREADING_LAYER="workqueue",
-        NUMBA_NUM_THREADS="16",
+        NUMBA_NUM_THREADS=os.environ.get("VERIF_NUMBA_THREADS", "16"),
         OMP_NUM_THREADS="1",
         OPENBLAS_NUM_THREADS="1",
         MKL_NUM_THREADS="1",
